@@ -312,6 +312,17 @@ impl DeltaHeader {
     }
 }
 
+/// (size, alignment, offset of `xmin`, offset of `version`) of the private [DeltaHeader], for the verification facade.
+#[cfg(feature = "verif")]
+pub(crate) fn delta_header_layout() -> (usize, usize, usize, usize) {
+    (
+        DeltaHeader::SIZE,
+        DeltaHeader::ALIGN,
+        std::mem::offset_of!(DeltaHeader, xmin),
+        std::mem::offset_of!(DeltaHeader, version),
+    )
+}
+
 /// LAYOUT: [Header][Null Bitmap][Keys (aligned)][Values (aligned)][Deltas...]
 ///
 /// Delta layout: [DeltaHeader][num_changes: u8][bitmap][changes...]
